@@ -487,6 +487,21 @@ func runFaults(c *core.Ctx, w *core.World, name string, argv []string, randomHis
 		return opLine{}
 	}
 	if prop == "C15" {
+		// "still usable" also means that LATER work goes through: a new file, staged and committed. Whether that is
+		// possible at all in this scenario (an identity may be missing) is learnt from the states before and after the
+		// complete command
+		next := func() (bool, string) {
+			os.WriteFile(filepath.Join(w.SB.W(), "zz next after the interruption.txt"), []byte("next "+name+"\n"), 0o666)
+			a := w.SB.Run(c.Goit, []string{"add", "zz next after the interruption.txt"}, sandbox.RunOpts{})
+			m := w.SB.Run(c.Goit, []string{"commit", "-m", "next after the interruption"}, sandbox.RunOpts{})
+			c.Eval(2)
+			return a.Exit == 0 && m.Exit == 0, fmt.Sprintf("add exits %d, commit exits %d: %s", a.Exit, m.Exit, clipS(firstLine(string(m.Stdout)+string(m.Stderr)+string(a.Stderr)), 160))
+		}
+		w.SB.Restore(spre)
+		okPre, _ := next()
+		w.SB.Restore(spost)
+		okPost, _ := next()
+		nextOK := okPre && okPost && !randomHist
 		for k := 1; k <= N; k++ {
 			if N > 160 && k > 50 && k <= N-50 && (k-50)%((N-100)/60+1) != 0 {
 				// a command with hundreds of modifications (a large object streamed in chunks): the first and last 50
@@ -632,6 +647,15 @@ func runFaults(c *core.Ctx, w *core.World, name string, argv []string, randomHis
 						}
 						c.Eval(1)
 					}
+				}
+				w.SB.Restore(sk)
+			}
+			// (6) later work goes through
+			if nextOK {
+				c.Oracle("C15.later-commit-works")
+				w.SB.Restore(sk)
+				if ok, how := next(); !ok {
+					fail(fc, "C15.later-commit-works", "later-commit-fails", trig, "%s: afterwards a new file cannot be staged and committed (%s), although that works before and after the complete command", where, how)
 				}
 				w.SB.Restore(sk)
 			}
